@@ -104,6 +104,11 @@ func (f *Feed) Message() *gtfsrt.FeedMessage {
 		tu := &gtfsrt.TripUpdate{Trip: d}
 		for _, u := range t.Updates {
 			su := &gtfsrt.TripUpdate_StopTimeUpdate{StopId: rgen.S(u.Stop)}
+			if u.Stop == NoStopID {
+				// a stop identified by its sequence number only (GTFS-realtime allows it): no stop_id on the wire
+				su.StopId = nil
+				su.StopSequence = proto.Uint32(77)
+			}
 			if u.Arr != nil {
 				su.Arrival = &gtfsrt.TripUpdate_StopTimeEvent{Time: rgen.I64(*u.Arr)}
 			}
@@ -164,6 +169,9 @@ type Opts struct {
 
 var Stops = []string{"A", "B", "C", "D", "E", "F"}
 
+// NoStopID is the marker of a route stop that is written without stop_id.
+const NoStopID = "~no-stop-id~"
+
 type tripPlan struct {
 	id, date, route, train string
 	south                  bool
@@ -213,6 +221,12 @@ func Gen(r *core.Rand, o Opts) *History {
 		perm := r.Perm(len(Stops))
 		for i := 0; i < n && i < len(perm); i++ {
 			p.routeStops = append(p.routeStops, Stops[perm[i]])
+		}
+		if r.Chance(1, 6) && len(p.routeStops) >= 2 {
+			// one stop of the route has no stop_id (never the first of the route, so that it becomes the first of an
+			// update only after the vehicle has passed something)
+			k := 1 + r.Intn(len(p.routeStops)-1)
+			p.routeStops[k] = NoStopID
 		}
 		if o.RouteLen > 0 {
 			p.routeStops = nil
